@@ -118,7 +118,11 @@ def main(tier, replay):
         fk = (sc["faults"][0]["kind"] if sc["faults"] else (sc["extras"][0]["what"] if sc["extras"] else ("black" + sc.get("black_kind", "") if sc.get("black_from", -1) >= 0 else "none")))
         dk = f"{sc['txn']['mode']}/{fk}/told={told.split(':')[0] if told.startswith('err') else told}/{'committed' if committed else 'not-committed'}"
         dist[dk] = dist.get(dk, 0) + 1
-        if bad:
+        if bad and bad[0].startswith("driver-fatal"):
+            nviol += 1
+            if nviol <= 5:
+                v.violation({"kind": "harness", "correspondence": "txn driver (environment)", "error": bad[0], "scenario": sc}, has_input=False)
+        elif bad:
             nviol += 1
             if nviol <= 5:
                 v.violation({"kind": "property-oracle", "scenario": sc, "violated": bad, "told": r.get("told"), "audit": r.get("audit"),
@@ -127,6 +131,9 @@ def main(tier, replay):
     cov.update(run_acceptor(traces, v, PID, exe=exe))
     if not gate["ok"]:
         v.violation({"kind": "proof", "theorem_or_file": gate["problems"], "what": "Coq obligations no longer check"}, has_input=False)
+    elif tier == "thorough":
+        from perc_gate import thorough_coqchk
+        thorough_coqchk("Verif.Percolator.Props", cov, v)
     cov.update(evaluations=len(allsc), distinct_nontrivial=len(distinct),
                rule="single faults {drop request, drop response, NotLeader, EpochNotMatch, ServerIsBusy, StaleCommand, region split, another client expires+resolves, reader pushes min-commit-ts, store unreachable from i on (requests / responses)} at every RPC index of Commit + random double faults, for shapes x {2pc, async, 1pc} x {optimistic, pessimistic}; after recovery: error class of Commit vs per-key MVCC truth; distinct non-trivial = distinct faulty scenarios",
                samples=[{"scenario": sc, "told": r.get("told")} for sc, r in traces[len(probes):len(probes) + 3]], input_distribution=dist)
